@@ -19,6 +19,7 @@ Styles == {"GOOGLE", "NUMPYDOC", "REST"}
 Prefs == {"CODE", "DOCSTRING"}
 Warns == {"WARN", "IGNORE"}
 
+Usable(d) == d \notin {"none", "free", "absent"}          \* does the docstring give a type for this slot?
 Meaning(t) ==
   CASE t = "int" -> { P!Atom("Builtin", "Int", <<>>) }
     [] t = "str" -> { P!Atom("Builtin", "String", <<>>) }
@@ -26,14 +27,21 @@ Meaning(t) ==
     [] t = "none" -> { P!Atom("Missing", "", <<>>) }
 
 Chosen(slot, pref) ==
-  IF slot.doc = "none" THEN slot.hint
+  IF ~Usable(slot.doc) THEN slot.hint
   ELSE IF slot.hint = "none" THEN slot.doc
   ELSE IF pref = "CODE" THEN slot.hint ELSE slot.doc
-Conflict(slot) == slot.hint # "none" /\ slot.doc # "none" /\ slot.hint # slot.doc
+Conflict(slot) == slot.hint \notin {"none", "absent"} /\ Usable(slot.doc) /\ slot.hint # slot.doc
 
+(* a second result (tuple hints, NumPy style only, the one style with several result entries); its docstring entry may carry a type
+   that cannot be understood ("free": free text) - then only the hint gives a type for that position *)
+Absent == [hint |-> "absent", doc |-> "absent"]
+TupleSlots == { [hint |-> h, doc |-> d] : h \in {"int", "str"}, d \in {"int", "str", "free"} }
 Universe(style, pref, warn) ==
-  { [params |-> ps, res |-> r, style |-> style, pref |-> pref, warn |-> warn]
+  { [params |-> ps, res |-> r, res2 |-> Absent, style |-> style, pref |-> pref, warn |-> warn]
       : ps \in { <<>> } \cup { <<a>> : a \in Slots } \cup { <<a, b>> : a \in Slots, b \in Slots }, r \in Slots }
+  \cup (IF style = "NUMPYDOC"
+        THEN { [params |-> <<>>, res |-> r, res2 |-> r2, style |-> style, pref |-> pref, warn |-> warn] : r \in TupleSlots, r2 \in TupleSlots }
+        ELSE {})
 
 VARIABLES sc, pc, i, chosen, log
 vars == <<sc, pc, i, chosen, log>>
@@ -49,14 +57,15 @@ ParamsDone == pc = "params" /\ i > Len(sc.params) /\ pc' = "result" /\ UNCHANGED
 ReconcileResult ==
   /\ pc = "result"
   /\ chosen' = Append(chosen, Chosen(sc.res, sc.pref))
-  /\ log' = IF Conflict(sc.res) /\ sc.warn = "WARN" THEN Append(log, "result") ELSE log
+  /\ log' = (IF Conflict(sc.res) /\ sc.warn = "WARN" THEN Append(log, "result") ELSE log)
+             \o (IF Conflict(sc.res2) /\ sc.warn = "WARN" THEN << "result2" >> ELSE <<>>)
   /\ pc' = "done" /\ UNCHANGED <<sc, i>>
 Next == ReconcileParam \/ ParamsDone \/ ReconcileResult
 Spec == Init /\ [][Next]_vars /\ WF_vars(Next)
 
 ExpectedWarnings(s) ==
   IF s.warn = "IGNORE" THEN 0
-  ELSE Cardinality({ k \in 1..Len(s.params) : Conflict(s.params[k]) }) + (IF Conflict(s.res) THEN 1 ELSE 0)
+  ELSE Cardinality({ k \in 1..Len(s.params) : Conflict(s.params[k]) }) + (IF Conflict(s.res) THEN 1 ELSE 0) + (IF Conflict(s.res2) THEN 1 ELSE 0)
 
 Inv_C14_Type ==
   pc = "done" => /\ \A k \in 1..Len(sc.params) :
@@ -84,7 +93,8 @@ Judge(s, obs) ==
     LET op == [ k \in 1..Len(obs.ptys) |-> P!ObsCanon(obs.ptys[k]) ]
         or == [ k \in 1..Len(obs.rtys) |-> P!ObsCanon(obs.rtys[k]) ]
         ep == [ k \in 1..Len(s.params) |-> Meaning(Chosen(s.params[k], s.pref)) ]
-        er == IF Chosen(s.res, s.pref) = "none" THEN <<>> ELSE << Meaning(Chosen(s.res, s.pref)) >>
+        er == IF s.res2 = Absent THEN (IF Chosen(s.res, s.pref) = "none" THEN <<>> ELSE << Meaning(Chosen(s.res, s.pref)) >>)
+              ELSE << Meaning(Chosen(s.res, s.pref)), Meaning(Chosen(s.res2, s.pref)) >>
     IN
       (IF Len(op) # Len(ep) THEN { [property |-> "C14", clause |-> "Type", sig |-> "param-count", expected |-> ToString(ep), observed |-> ToString(op)] }
        ELSE { [property |-> "C14", clause |-> "Type", sig |-> "param:" \o s.style \o ":" \o s.pref \o ":" \o SlotSig(s.params[k]),
@@ -92,14 +102,15 @@ Judge(s, obs) ==
       \cup
       (IF or # er THEN { [property |-> "C14", clause |-> "Type",
                            sig |-> "result:" \o s.style \o ":" \o s.pref \o ":"
-                                   \o (IF s.res.hint = "none" THEN "doc-only-" \o s.res.doc ELSE IF Conflict(s.res) THEN "conflict" ELSE "agree"),
+                                   \o (IF s.res2 # Absent THEN "two-results:" \o s.res.doc \o "+" \o s.res2.doc
+                                       ELSE IF s.res.hint = "none" THEN "doc-only-" \o s.res.doc ELSE IF Conflict(s.res) THEN "conflict" ELSE "agree"),
                            expected |-> ToString(er), observed |-> ToString(or)] } ELSE {})
       \cup
       (IF obs.nwarn # ExpectedWarnings(s)
        THEN { [property |-> "C14", clause |-> "WarnBag",
                sig |-> s.style \o ":" \o s.warn \o ":" \o (IF obs.nwarn > ExpectedWarnings(s) THEN "spurious" ELSE "missing")
                        \o ":params-" \o (IF \E k \in 1..Len(s.params) : Conflict(s.params[k]) THEN "conflict" ELSE "agree")
-                       \o ":result-" \o (IF Conflict(s.res) THEN "conflict" ELSE "agree"),
+                       \o ":result-" \o (IF Conflict(s.res) \/ Conflict(s.res2) THEN "conflict" ELSE "agree"),
                expected |-> ToString(ExpectedWarnings(s)), observed |-> ToString(obs.nwarn)] }
        ELSE {})
 
